@@ -52,7 +52,9 @@ pub enum Fault {
     /// second threaded pipe B is created before (order 1) or after (order 0, 2) it and dropped
     /// (order 0, 1) or kept alive (order 2) before A's processing function panics on the first item >= j;
     /// order 3, 4: B is created first, then foreign code (a logging / error-reporting library) installs
-    /// its own panic hook (3) or takes the current one away (4), B is dropped (4) or kept (3), then A is created
+    /// its own panic hook (3) or takes the current one away (4), B is dropped (4) or kept (3), then A is created;
+    /// order 5: B is created while A's workers are already failing (the panic may fire at any
+    /// point of B's construction)
     FnPanicTwoPipes { j: usize, order: u8 },
     /// the processing function hands item j to a helper thread, the helper panics and the
     /// worker re-raises the panic with resume_unwind (what rayon's par_iter or a scoped join does):
@@ -204,7 +206,7 @@ pub fn grid() -> Vec<(Shape, u8, Option<usize>, Fault)> {
     }
     // ---- a second pipe in the same process, created and dropped around the observed one
     for j in [0usize, 4] {
-        for order in 0..5u8 {
+        for order in 0..6u8 {
             for w in [1u8, 2, 4] {
                 g.push((Shape::Pipe, w, None, Fault::FnPanicTwoPipes { j, order }));
                 g.push((Shape::PipeBuffered(1), w, Some(40), Fault::FnPanicTwoPipes { j, order }));
@@ -669,12 +671,15 @@ impl Scenario for C09 {
                     rt::wait_threads_exit();
                 }
                 Fault::FnPanicTwoPipes { order, .. } => {
-                    let mut late_other = if order == 0 || order == 2 { Some(other(6)) } else { None };
+                    if order == 5 {
+                        armed.store(true, std::sync::atomic::Ordering::SeqCst);
+                    }
+                    let mut late_other = if order == 0 || order == 2 || order == 5 { Some(other(6)) } else { None };
                     for o in [&mut early_other, &mut late_other].into_iter().flatten() {
                         let _ = o.next();
                         let _ = o.next();
                     }
-                    if order != 2 && order != 3 {
+                    if order != 2 && order != 3 && order != 5 {
                         // the second loader goes away (e.g. validation finished) before the failure
                         drop(early_other.take());
                         drop(late_other.take());
